@@ -43,6 +43,7 @@ type ReqParams struct {
 	TCPMethod   string `json:"tcp_method"`
 	WantV6      bool   `json:"want_v6,omitempty"`
 	Paris       bool   `json:"paris,omitempty"`
+	NumStyle    string `json:"num_style,omitempty"` // HTTP only: "" | zeros | plus
 	ReverseDns  bool   `json:"reverse_dns,omitempty"`
 	PublicIP    bool   `json:"public_ip,omitempty"`
 	Queries     int    `json:"queries"`
@@ -61,15 +62,31 @@ func (p ReqParams) ToLib() traceroute.TracerouteParams {
 
 // ToQuery builds the HTTP API query string (MinTTL and Delay are not settable there).
 func (p ReqParams) ToQuery() string {
+	// NumStyle: the same decimal numbers spelt with leading zeros or an explicit plus sign
+	num := func(v int) string {
+		s := strconv.Itoa(v)
+		switch p.NumStyle {
+		case "zeros":
+			if v < 0 {
+				return "-00" + s[1:]
+			}
+			return "00" + s
+		case "plus":
+			if v >= 0 {
+				return "+" + s
+			}
+		}
+		return s
+	}
 	q := url.Values{}
 	q.Set("target", p.Hostname)
-	q.Set("port", strconv.Itoa(p.Port))
+	q.Set("port", num(p.Port))
 	q.Set("protocol", p.Protocol)
-	q.Set("max-ttl", strconv.Itoa(p.MaxTTL))
-	q.Set("timeout", strconv.Itoa(p.TimeoutMs))
+	q.Set("max-ttl", num(p.MaxTTL))
+	q.Set("timeout", num(p.TimeoutMs))
 	q.Set("tcp-method", p.TCPMethod)
-	q.Set("traceroute-queries", strconv.Itoa(p.Queries))
-	q.Set("e2e-queries", strconv.Itoa(p.E2e))
+	q.Set("traceroute-queries", num(p.Queries))
+	q.Set("e2e-queries", num(p.E2e))
 	q.Set("ipv6", strconv.FormatBool(p.WantV6))
 	q.Set("reverse-dns", strconv.FormatBool(p.ReverseDns))
 	q.Set("source-public-ip", strconv.FormatBool(p.PublicIP))
@@ -87,17 +104,20 @@ type DNSScript struct {
 }
 
 type Request struct {
-	P        ReqParams    `json:"params"`
-	HTTP     bool         `json:"http,omitempty"`
-	RawQuery string       `json:"raw_query,omitempty"` // overrides ToQuery when set
-	Scripts  []FlowScript `json:"scripts"`
-	Faults   []Fault      `json:"faults,omitempty"`
-	SackSrv  bool         `json:"sack_srv,omitempty"` // start a loopback listener at Hostname and use its port
-	Sack     SackCfg      `json:"sack"`
-	Fetcher  string       `json:"fetcher,omitempty"` // "" ok | error | slow | hang
+	P              ReqParams    `json:"params"`
+	HTTP           bool         `json:"http,omitempty"`
+	RawQuery       string       `json:"raw_query,omitempty"` // overrides ToQuery when set
+	Scripts        []FlowScript `json:"scripts"`
+	Faults         []Fault      `json:"faults,omitempty"`
+	SackSrv        bool         `json:"sack_srv,omitempty"`          // start a loopback listener at Hostname and use its port
+	SackPortInHost bool         `json:"sack_port_in_host,omitempty"` // with SackSrv: the port goes into the target literal, Port names another port
+	Sack           SackCfg      `json:"sack"`
+	Fetcher        string       `json:"fetcher,omitempty"` // "" ok | error | slow | hang
 	// ReadAfter: the caller keeps reading the returned document (serialises it at once and again 5 s later);
 	// ChangedAfterReturn reports a document that was still being written to after the call had returned
-	ReadAfter       bool                      `json:"read_after,omitempty"`
+	ReadAfter bool `json:"read_after,omitempty"`
+	// Concurrent: this many identical library requests are served at the same time by one Traceroute object
+	Concurrent      int                       `json:"concurrent,omitempty"`
 	DNS             map[string]DNSScript      `json:"dns,omitempty"`
 	DNSDefault      DNSScript                 `json:"dns_default"`
 	CancelAtUs      int64                     `json:"cancel_at_us,omitempty"`
@@ -187,8 +207,17 @@ func RunRequest(t *testing.T, rq *Request) *ReqOutcome {
 		defer srv.Close()
 		world.Sack = srv
 		p.Port = int(srv.Addr.Port())
+		out.Port = p.Port
+		if rq.SackPortInHost {
+			// the listener's port is written inside the target literal; the Port parameter names another (closed) port
+			// and, by the rule "a port written in the target wins", must not be used by anything
+			p.Hostname = netip.AddrPortFrom(addr, srv.Addr.Port()).String()
+			p.Port = 9
+		}
 	}
-	out.Port = p.Port
+	if out.Port == 0 {
+		out.Port = p.Port
+	}
 	packets.VerifSetPacketIDBase(rq.PktIDBase)
 	icmp.VerifSetEchoIDBase(rq.EchoBase)
 	tcp.VerifSetSeqFn(nil)
@@ -280,6 +309,29 @@ func RunRequest(t *testing.T, rq *Request) *ReqOutcome {
 					out.Body = rr.Body.Bytes()
 					if rr.Code != http.StatusOK {
 						out.Err = fmt.Errorf("HTTP %d: %s", rr.Code, rr.Body.String())
+					}
+				} else if rq.Concurrent > 1 {
+					// several requests served by one process at the same time (one Traceroute object, one cache)
+					var wg sync.WaitGroup
+					ress := make([]*result.Results, rq.Concurrent)
+					errs := make([]error, rq.Concurrent)
+					for i := 0; i < rq.Concurrent; i++ {
+						wg.Add(1)
+						go func(i int) {
+							defer wg.Done()
+							ress[i], errs[i] = tr.RunTraceroute(ctx, p.ToLib())
+							if ress[i] != nil {
+								// the caller reads what it was handed
+								json.Marshal(ress[i])
+							}
+						}(i)
+					}
+					wg.Wait()
+					out.Res, out.Err = ress[0], errs[0]
+					for i := range errs {
+						if errs[i] != nil {
+							out.Res, out.Err = nil, errs[i]
+						}
 					}
 				} else {
 					out.Res, out.Err = tr.RunTraceroute(ctx, p.ToLib())
